@@ -258,8 +258,18 @@ pub fn check(env: &Env, c: &Case) -> Outcome {
             0 => cls = "validate/honest".into(),
             1 => {
                 let l = fel(&img["log_n_steps"]);
-                img["log_n_steps"] = hx(&if c.c % 2 == 0 { l + u(1) } else { l - u(1) });
-                cls = "validate/step_count_mismatch".into();
+                // +-1, or a value that aliases the honest exponent under a narrowing cast
+                let one = BigUint::from(1u8);
+                let (v, what) = match c.c % 8 {
+                    0 | 1 => (&l + u(1), "plus_one"),
+                    2 | 3 => (&l - u(1), "minus_one"),
+                    4 => (&l + (&one << 64), "plus_2_64"),
+                    5 => (&l + (&one << 32), "plus_2_32"),
+                    6 => (&l + (&one << 128), "plus_2_128"),
+                    _ => (&l + (&one << 8), "plus_2_8"),
+                };
+                img["log_n_steps"] = hx(&v);
+                cls = format!("validate/step_count_mismatch/{}", what);
             }
             2 => {
                 if layout == "dynamic" {
@@ -506,4 +516,4 @@ pub fn replay(ctx: &Ctx, v: &Value) -> Result<Outcome, String> {
     Ok(check(&e, &c))
 }
 
-pub const RULE: &str = "per layout (7), base = the honest public input of a shipped Stone proof; validate_public_input perturbations: step count +-1, consistent trace/step resize to 2^4..2^30 with one builtin's usage at {0, 1, capacity-1, capacity, capacity+1} instances (static layouts), segment count +-1, layout code +-1, range-check bounds at 0/min=max/0xffff/0x10000/min>max/p-1, each builtin segment's stop-begin at {0, one instance, half, capacity, capacity+1 instance, non-multiple, negative, 2^64, 2^128, p-1}; oracle = pure-integer rule (cells | usage and usage/cells <= floor(trace_len/row_ratio), per-layout constants written down independently; dynamic layout judged only with honest trace length, otherwise 'unspecified'). verify_public_input perturbations: honest, one address +-1, two cells reordered, truncation, output cells dropped, extension at a fresh address, one cell deleted, output segment grown, all addresses shifted, value changed, page cut inside the program together with an emptied / re-declared output segment; oracle (three-valued): if Ok((ph,oh)) then every program address initial_pc..initial_fp-2 and output address must be present exactly once and (ph,oh) are the Pedersen chains of those cells; honest/value-changed pages must return Ok. Non-trivial = every judged case; classes per layout x perturbation";
+pub const RULE: &str = "per layout (7), base = the honest public input of a shipped Stone proof; validate_public_input perturbations: step-count exponent +-1 / +2^8 / +2^32 / +2^64 / +2^128 (aliases under a narrowing cast), consistent trace/step resize to 2^4..2^30 with one builtin's usage at {0, 1, capacity-1, capacity, capacity+1} instances (static layouts), segment count +-1, layout code +-1, range-check bounds at 0/min=max/0xffff/0x10000/min>max/p-1, each builtin segment's stop-begin at {0, one instance, half, capacity, capacity+1 instance, non-multiple, negative, 2^64, 2^128, p-1}; oracle = pure-integer rule (cells | usage and usage/cells <= floor(trace_len/row_ratio), per-layout constants written down independently; dynamic layout judged only with honest trace length, otherwise 'unspecified'). verify_public_input perturbations: honest, one address +-1, two cells reordered, truncation, output cells dropped, extension at a fresh address, one cell deleted, output segment grown, all addresses shifted, value changed, page cut inside the program together with an emptied / re-declared output segment; oracle (three-valued): if Ok((ph,oh)) then every program address initial_pc..initial_fp-2 and output address must be present exactly once and (ph,oh) are the Pedersen chains of those cells; honest/value-changed pages must return Ok. Non-trivial = every judged case; classes per layout x perturbation";
